@@ -95,6 +95,9 @@ def row_admits(row, params, consts):
 
 def mem_classes(row):
     """zero-page-ness classes a row covers: subset of {True, False}."""
+    if row.get("zp_pred") is not None:
+        # asm() decided through its zero-page predicate (memory class and, for constant addresses, the offset)
+        return {bool(row["zp_pred"])}
     mem = row["memory"]
     if mem is None:
         return {True, False}
